@@ -419,3 +419,218 @@ Section DecArrays.
       + cbn [xs xi]. exact Hseg2.
   Qed.
 End DecArrays.
+
+(* ---------- assembling ---------- *)
+
+Section DecMain.
+  Variables (B E : endian).
+  Hypothesis HBE : B = E.
+  Let cp := call_processor B E false.
+
+  Lemma dec_alias u : dec_ok B E u -> dec_ok B E (TAlias u).
+  Proof.
+    intros IH v x Hw Hc Ht Hpre Hseg. cbn [wf cwf has_ty nbits enc_bits zero_obj store core] in *.
+    apply andb_true_iff in Hc. destruct Hc as [Hat Hcu].
+    rewrite (alias_core B E false u x _ Hat). apply IH; assumption.
+  Qed.
+
+  (* the body of BpEndecodeArray after the prefix: batch copy or per-element loop *)
+  Lemma dec_array_body ext e l x1 :
+    dec_ok B E e -> wf e = true -> cwf e = true -> elem_ok e = true ->
+    (forall a, In a l -> has_ty e a = true) ->
+    dec_pre x1 (Z.of_nat (length l) * nbits e) ->
+    seg (xs x1) (xi x1) (Z.of_nat (length l) * nbits e) = Z_of_bits (flat_map (enc_bits e) l) ->
+    (if batch_pred B (nbits e) (d_flag (render e)) (d_to_flag (render e))
+     then on_bytes (zero_obj (TArr ext (length l) e))
+            (fun bs =>
+               r0 <-- base_type B E false (ar_batch_nbits (nbits e) (Z.of_nat (length l))) x1 bs ;;
+               if ar_sign_needed (d_flag (render e)) (d_to_flag (render e))
+               then bs' <-- batch_sign E false (Z.to_nat (Z.of_nat (length l))) 0 (csize e) (nbits e) (snd r0) ;;
+                    COk (fst r0, bs')
+               else COk r0)
+     else elems_loop B E cp false (render e) (Z.to_nat (Z.of_nat (length l))) 0 x1 (zero_obj (TArr ext (length l) e)))
+    = COk ({| xs := xs x1; xi := xi x1 + Z.of_nat (length l) * nbits e |}, store E (TArr ext (length l) e) (VL l)).
+  Proof.
+    intros IH Hwe Hce Hel Hty Hpre Hseg.
+    pose proof (nbits_nonneg e Hwe) as Hn. pose proof (csize_nonneg e Hwe) as Hcs.
+    rewrite Nat2Z.id. cbn [zero_obj store vlist].
+    destruct (batch_pred B (nbits e) (d_flag (render e)) (d_to_flag (render e))) eqn:Hbp.
+    - destruct B; [|discriminate Hbp]. destruct E; [|discriminate HBE].
+      cbn [batch_pred] in Hbp.
+      destruct (batch_inv e Hwe Hce Hbp) as (Hfl & Hn8 & Hval).
+      pose proof Hbp as Hbp'. unfold ar_batch_le_build in Hbp'. apply andb_true_iff in Hbp'. destruct Hbp' as [Hstd _].
+      rewrite Hfl. unfold on_bytes.
+      assert (Hnb : ar_batch_nbits (nbits e) (Z.of_nat (length l)) = Z.of_nat (length l) * nbits e) by (unfold ar_batch_nbits; lia).
+      rewrite Hnb. destruct Hpre as (Hs & Hi & Hl).
+      destruct (base_dec LE LE (Z.of_nat (length l) * nbits e) x1 (length l * Z.to_nat (csize e)) eq_refl ltac:(nia) Hs Hi Hl)
+        as (d' & E1 & L1 & O1 & V1); [nia|intros HH; discriminate HH|].
+      rewrite E1. cbn [cbind fst snd].
+      set (f := fun a => obytes (store LE e a)).
+      assert (Hf : forall a, In a l -> length (f a) = Z.to_nat (csize e) /\ bytes_ok (f a) /\ store LE e a = OB (f a)).
+      { intros a Ha. apply (f_len LE e Hwe Hfl a (Hty a Ha)). }
+      assert (Hd : d' = flat_map f l).
+      { apply bufZ_inj.
+        - exact O1.
+        - unfold bytes_ok. apply Forall_forall. intros b Hb. apply in_flat_map in Hb. destruct Hb as (a & Ha & Hb).
+          destruct (Hf a Ha) as (_ & Ho & _). unfold bytes_ok in Ho. rewrite Forall_forall in Ho. now apply Ho.
+        - rewrite L1. symmetry. apply flat_map_length_const. intros a Ha. apply Hf, Ha.
+        - cbn [native_val] in V1. rewrite V1. fold (seg (xs x1) (xi x1) (Z.of_nat (length l) * nbits e)). rewrite Hseg.
+          apply (flat_map_bufZ _ f (Z.to_nat (csize e))). intros a Ha. destruct (Hf a Ha) as (Hla & Hoa & Hsa).
+          split; [|split; [|exact Hla]].
+          + rewrite <- (Hval (f a) Hoa ltac:(lia)). rewrite <- Hsa.
+            destruct (store_ok_all LE e a Hwe (Hty a Ha)) as [_ Hb]. now rewrite Hb.
+          + rewrite (enc_bits_length e a Hwe (Hty a Ha)). lia. }
+      assert (Hres : (if ar_sign_needed (d_flag (render e)) (d_to_flag (render e))
+                      then bs' <-- batch_sign LE false (length l) 0 (csize e) (nbits e) d' ;;
+                           COk ({| xs := xs x1; xi := xi x1 + Z.of_nat (length l) * nbits e |}, bs')
+                      else COk ({| xs := xs x1; xi := xi x1 + Z.of_nat (length l) * nbits e |}, d'))
+                     = COk ({| xs := xs x1; xi := xi x1 + Z.of_nat (length l) * nbits e |}, d')).
+      { destruct (ar_sign_needed _ _); [|reflexivity].
+        rewrite batch_sign_dec_std; [reflexivity|apply std_skip, Hstd|exact Hcs|]. rewrite L1. nia. }
+      rewrite Hres. cbn [cbind fst snd]. rewrite Hd. reflexivity.
+    - destruct (flat e) eqn:Hfl.
+      + pose proof (dec_elems_OB B E e IH Hwe Hce Hel Hfl l [] x1 ltac:(intros a []) Hty Hpre Hseg) as H.
+        cbn [length flat_map app] in H. exact H.
+      + pose proof (dec_elems_OL B E e IH Hwe Hce Hel l [] x1 Hty Hpre Hseg) as H.
+        cbn [length map app] in H. exact H.
+  Qed.
+
+  Lemma bits16 v : 0 <= v < 65536 -> Z_of_bits (bits_of 16 v) = v.
+  Proof.
+    intros H. change (bits_of 16 v) with (bits_of (Z.to_nat 16) v).
+    rewrite Z_of_bits_of. change (2 ^ Z.of_nat (Z.to_nat 16)) with 65536. apply Z.mod_small. exact H.
+  Qed.
+
+  Lemma dec_array ext cap e : dec_ok B E e -> dec_ok B E (TArr ext cap e).
+  Proof.
+    intros IH v x Hw Hc Ht Hpre Hseg.
+    cbn [wf] in Hw. rewrite !andb_true_iff in Hw. destruct Hw as [[Hc1 Hc2] Hwe].
+    cbn [cwf] in Hc. apply andb_true_iff in Hc. destruct Hc as [Hel Hce].
+    cbn [has_ty] in Ht. destruct v as [| |l|]; try discriminate.
+    apply andb_true_iff in Ht. destruct Ht as [Hlen Hall]. apply Nat.eqb_eq in Hlen. subst cap.
+    rewrite forallb_forall in Hall.
+    pose proof (nbits_nonneg e Hwe) as Hn.
+    assert (Hl2 : Z.of_nat (length (flat_map (enc_bits e) l)) = Z.of_nat (length l) * nbits e).
+    { rewrite (flat_map_length_const _ _ (Z.to_nat (nbits e))); [lia|].
+      intros b Hb. pose proof (enc_bits_length e b Hwe (Hall b Hb)). lia. }
+    cbn [nbits enc_bits vlist] in Hpre, Hseg |- *. cbn [core]. unfold endecode_array.
+    rewrite d_nbits_render, d_size_render. cbn [negb]. rewrite andb_true_r.
+    destruct Hpre as (Hs & Hi & Hl).
+    destruct ext; cbn [ext_bits] in *.
+    - (* extensible: 16-bit prefix = capacity, then the skip lands exactly on the cursor *)
+      replace (16 + Z.of_nat (length l) * nbits e) with (Z.of_nat (length (bits_of 16 (Z.of_nat (length l)))) + Z.of_nat (length (flat_map (enc_bits e) l))) in Hseg
+        by (rewrite Hl2; reflexivity).
+      destruct (seg_app _ _ _ _ Hi Hseg) as [Hseg1 Hseg2].
+      change (Z.of_nat (length (bits_of 16 (Z.of_nat (length l))))) with 16 in Hseg1, Hseg2. rewrite Hl2 in Hseg2.
+      rewrite bits16 in Hseg1 by lia.
+      rewrite (dec_ahead B E HBE x (Z.of_nat (length l))); [|unfold dec_pre; repeat split; try assumption; nia|exact Hseg1].
+      cbn [cbind fst snd].
+      fold cp.
+      rewrite (dec_array_body true e l {| xs := xs x; xi := xi x + 16 |} IH Hwe Hce Hel Hall);
+        [|unfold dec_pre; cbn [xs xi]; repeat split; try assumption; nia|cbn [xs xi]; exact Hseg2].
+      cbn [cbind fst snd xs xi].
+      assert (Hito : ar_ito (xi x) (Z.of_nat (length l)) (xi x + 16 + Z.of_nat (length l) * nbits e) (Z.of_nat (length l))
+                     = xi x + 16 + Z.of_nat (length l) * nbits e).
+      { unfold ar_ito. replace (xi x + 16 + Z.of_nat (length l) * nbits e - xi x - 16) with (nbits e * Z.of_nat (length l)) by lia.
+        rewrite Z.quot_mul by lia. lia. }
+      rewrite Hito. unfold ar_ito_taken. rewrite Z.geb_leb, Z.leb_refl.
+      f_equal. f_equal. f_equal. lia.
+    - rewrite Z.add_0_l in *. cbn [cbind fst snd].
+      fold cp.
+      rewrite (dec_array_body false e l x IH Hwe Hce Hel Hall); [|unfold dec_pre; repeat split; assumption|exact Hseg].
+      cbn [cbind]. reflexivity.
+  Qed.
+
+  Lemma dec_msg ext fs : Forall (fun kf => dec_ok B E (snd kf)) fs -> dec_ok B E (TMsg ext fs).
+  Proof.
+    intros IH v x Hw Hc Ht Hpre Hseg.
+    pose proof (nbits_nonneg _ Hw) as Hnn. pose proof (enc_bits_length _ v Hw Ht) as Hlen.
+    rewrite wf_msg in Hw. rewrite !andb_true_iff in Hw. destruct Hw as [[Hkd Hnb] Hwf].
+    rewrite cwf_msg in Hc. destruct v as [| | |vs]; try discriminate. rewrite has_ty_msg in Ht.
+    pose proof (fields_bits_length vs fs Hwf Ht) as Hl2. pose proof (fields_nbits_nonneg fs Hwf) as Hfn.
+    rewrite enc_bits_msg in Hseg. rewrite nbits_msg in Hpre, Hseg, Hnn, Hnb |- *.
+    rewrite zero_obj_msg, store_msg. cbn [core]. unfold endecode_message. rewrite Nat2Z.id. cbn [negb]. rewrite andb_true_r.
+    destruct Hpre as (Hs & Hi & Hl).
+    destruct ext; cbn [ext_bits] in *.
+    - set (P := bits_of 16 (16 + fields_nbits fs)) in *.
+      assert (HlP : Z.of_nat (length P) = 16) by reflexivity.
+      replace (16 + fields_nbits fs) with (Z.of_nat (length P) + Z.of_nat (length (fields_bits (VM vs) fs))) in Hseg
+        by (rewrite Hl2, HlP; reflexivity).
+      destruct (seg_app _ _ _ _ Hi Hseg) as [Hseg1 Hseg2].
+      rewrite HlP in Hseg1, Hseg2. rewrite Hl2 in Hseg2.
+      unfold P in Hseg1. rewrite bits16 in Hseg1 by lia.
+      rewrite (dec_ahead B E HBE x (16 + fields_nbits fs)); [|unfold dec_pre; repeat split; try assumption; lia|exact Hseg1].
+      cbn [cbind fst snd].
+      pose proof (dec_fields B E vs fs [] {| xs := xs x; xi := xi x + 16 |}) as Hf.
+      cbn [app store_fields] in Hf. rewrite Hf; try assumption.
+      2:{ unfold dec_pre. cbn [xs xi]. repeat split; try assumption; lia. }
+      cbn [cbind fst snd xs xi]. unfold ms_ito, ms_ito_taken.
+      replace (xi x + (16 + fields_nbits fs) >=? xi x + 16 + fields_nbits fs) with true by lia.
+      reflexivity.
+    - rewrite Z.add_0_l in *. cbn [cbind fst snd].
+      pose proof (dec_fields B E vs fs [] x) as Hf. cbn [app store_fields] in Hf.
+      rewrite Hf; try assumption; [reflexivity|]. unfold dec_pre. repeat split; assumption.
+  Qed.
+
+  Theorem dec_ok_all t : dec_ok B E t.
+  Proof.
+    induction t as [| | n | n | n ms | t IH | x c e IH | x fs IH] using ty_ind'.
+    - intros v x _ _ Ht Hpre Hseg. cbn [has_ty] in Ht. destruct v as [b| | |]; try discriminate.
+      cbn [nbits enc_bits zero_obj store core] in *. destruct ah_facts as (_ & _ & -> & _).
+      change (OB [0]) with (OB (zeros (Z.to_nat (int_size 1)))).
+      rewrite (dec_base B E HBE 1 x (Z.b2z b)); try assumption; try lia.
+      + f_equal. f_equal. unfold store_int. f_equal. change (Z.to_nat (int_size 1)) with 1%nat.
+        destruct E, b; reflexivity.
+      + rewrite Hseg. cbn [Z_of_bits]. lia.
+    - intros v x _ _ Ht Hpre Hseg. cbn [has_ty] in Ht. destruct v as [|z| |]; try discriminate.
+      cbn [nbits enc_bits zero_obj store core zof] in *. destruct ah_facts as (_ & _ & _ & ->).
+      change (OB [0]) with (OB (zeros (Z.to_nat (int_size 8)))).
+      rewrite (dec_base B E HBE 8 x z); try assumption; try lia.
+      + f_equal. f_equal. unfold store_int. f_equal. change (Z.to_nat (int_size 8)) with 1%nat.
+        assert (0 <= z < 256) by lia. destruct E; cbn; rewrite ?Z.mod_small by lia; reflexivity.
+      + rewrite Hseg. change (bits_of 8 z) with (bits_of (Z.to_nat 8) z). rewrite Z_of_bits_of.
+        change (2 ^ Z.of_nat (Z.to_nat 8)) with 256. apply Z.mod_small. lia.
+    - intros v x Hw _ Ht Hpre Hseg. cbn [wf has_ty] in *. destruct v as [|z| |]; try discriminate.
+      cbn [nbits enc_bits zero_obj store core zof] in *.
+      apply (dec_base B E HBE n x z); try assumption; try lia.
+      rewrite Hseg, Z_of_bits_of, Z2Nat.id by lia. apply Z.mod_small. lia.
+    - intros v x Hw _ Ht Hpre Hseg. cbn [wf has_ty] in *. destruct v as [|z| |]; try discriminate.
+      cbn [nbits enc_bits zero_obj store core zof] in *.
+      apply (dec_int B E HBE n x z); try assumption; try lia.
+      rewrite Hseg, Z_of_bits_of, Z2Nat.id by lia. reflexivity.
+    - intros v x Hw _ Ht Hpre Hseg. cbn [wf has_ty] in *. rewrite !andb_true_iff in Hw. destruct Hw as [[Hn1 Hn2] Hms].
+      destruct v as [|z| |]; try discriminate.
+      cbn [nbits enc_bits zero_obj store core zof] in *.
+      apply existsb_exists in Ht. destruct Ht as (m & Hin & Hm). apply Z.eqb_eq in Hm. subst m.
+      rewrite forallb_forall in Hms. specialize (Hms z Hin).
+      apply (dec_base B E HBE n x z); try assumption; try lia.
+      rewrite Hseg, Z_of_bits_of, Z2Nat.id by lia. apply Z.mod_small. lia.
+    - apply dec_alias, IH.
+    - apply dec_array, IH.
+    - apply dec_msg, IH.
+  Qed.
+End DecMain.
+
+(* ---------- Decode<Msg>(wire v) into a zero-initialised struct = store v ---------- *)
+
+Theorem c_decode_wire B E t v :
+  B = E -> is_msg t = true -> wf (norm t) = true -> cwf (norm t) = true -> has_ty (norm t) v = true ->
+  c_decode_ty B E t (wire t v) = COk (store E (norm t) v).
+Proof.
+  intros HBE Hm Hw Hc Ht. unfold c_decode_ty, c_decode.
+  set (T := norm t) in *.
+  assert (HT : exists xx fs, T = TMsg xx fs).
+  { subst T. destruct t; try discriminate Hm. cbn [norm]. eauto. }
+  destruct HT as (xx & fs & HT).
+  pose proof (nbits_nonneg T Hw) as Hnn.
+  pose proof (enc_bits_length T v Hw Ht) as Hlen.
+  set (x0 := {| xs := wire t v; xi := 0 |}).
+  assert (Hpre : dec_pre x0 (nbits T)).
+  { unfold dec_pre, x0. cbn [xs xi]. split; [apply pack_bytes_ok|]. split; [lia|].
+    unfold wire. fold T. rewrite pack_length, Hlen. lia. }
+  assert (Hseg : seg (xs x0) (xi x0) (nbits T) = Z_of_bits (enc_bits T v)).
+  { unfold seg, x0, wire. cbn [xs xi]. fold T. rewrite bufZ_pack. change (2 ^ 0) with 1. rewrite Z.div_1_r.
+    apply Z.mod_small. rewrite <- Hlen. apply Z_of_bits_range. }
+  pose proof (dec_ok_all B E HBE T v x0 Hw Hc Ht Hpre Hseg) as H.
+  rewrite HT at 1 2. rewrite top_core, <- HT. rewrite H. reflexivity.
+Qed.
